@@ -120,7 +120,8 @@ def handle (j : J) : Except String J := do
   let vj ← j.get "var"
   let var : Variant := { d7 := ← vj.boolean "d7", d8 := ← vj.boolean "d8", c121 := ← vj.boolean "c121",
                           c122 := match vj.get? "c122" with | some (.bool b) => b | _ => false,
-                          c126 := match vj.get? "c126" with | some (.bool b) => b | _ => false }
+                          c126 := match vj.get? "c126" with | some (.bool b) => b | _ => false,
+                          c134 := match vj.get? "c134" with | some (.bool b) => b | _ => false }
   let ports ← (← j.array "ports").mapM fun p => do
     pure ({ no := ← p.nat "no", hw := ← p.bytes "hw", config := ← p.nat "config", state := ← p.nat "state" } : Port)
   let ops ← (← j.array "ops").mapM dopOfJ
